@@ -123,8 +123,17 @@ type fieldRef struct {
 	Addr  *ssa.FieldAddr
 }
 
-// fieldRefs lists field reads and writes in f (not closures).
+// fieldRefs lists field reads and writes in f and in the unexported same-package helpers it
+// calls (see helpersOf); not in closures.
 func fieldRefs(f *ssa.Function) []fieldRef {
+	out := fieldRefsOne(f)
+	for _, h := range helpersOf(f) {
+		out = append(out, fieldRefsOne(h)...)
+	}
+	return out
+}
+
+func fieldRefsOne(f *ssa.Function) []fieldRef {
 	var out []fieldRef
 	for _, b := range f.Blocks {
 		for _, in := range b.Instrs {
@@ -210,6 +219,79 @@ func callsIn(f *ssa.Function, withClosures bool) []callSite {
 		}
 	}
 	rec(f)
+	for _, h := range helpersOf(f) {
+		rec(h)
+	}
+	return out
+}
+
+// helpersOf lists the transparent non-literal callees of f, transitively (bounded): unexported
+// functions and methods of f's package that f (or such a helper) calls statically. Rules treat
+// their bodies as part of f, so that extracting statements into a helper changes no verdict.
+// Function literals are not included here (callers ask for them with withClosures / AnonFuncs).
+var helperMemo = map[*ssa.Function][]*ssa.Function{}
+
+// regionMode: when true, fieldRefs / callsIn / branchesIn of a function include its helpers.
+// It is on for rules anchored at named functions ("does this happen in F, wherever the statements
+// live") and off while a rule enumerates all functions of a package (Prog.AllFuncs), because such
+// rules attribute a construct to the one function that contains it and reason about callers
+// separately; withoutHelpers switches it off explicitly.
+var regionMode = true
+
+func withHelpers(body func()) {
+	saved := regionMode
+	regionMode = true
+	defer func() { regionMode = saved }()
+	body()
+}
+
+func withoutHelpers(body func()) {
+	saved := regionMode
+	regionMode = false
+	defer func() { regionMode = saved }()
+	body()
+}
+
+func helpersOf(f *ssa.Function) []*ssa.Function {
+	if !regionMode || f == nil {
+		return nil
+	}
+	if hs, ok := helperMemo[f]; ok {
+		return hs
+	}
+	helperMemo[f] = nil // recursion guard
+	pkg := pkgOfFn(f)
+	seen := map[*ssa.Function]bool{f: true}
+	var out []*ssa.Function
+	var visit func(g *ssa.Function, depth int)
+	visit = func(g *ssa.Function, depth int) {
+		if depth > 3 {
+			return
+		}
+		scan := func(x *ssa.Function) {
+			for _, b := range x.Blocks {
+				for _, in := range b.Instrs {
+					ci, ok := in.(ssa.CallInstruction)
+					if !ok {
+						continue
+					}
+					sc := ci.Common().StaticCallee()
+					if sc == nil || seen[sc] || sc.Parent() != nil || len(sc.Blocks) == 0 || !isTransparent(sc, pkg) {
+						continue
+					}
+					seen[sc] = true
+					out = append(out, sc)
+					visit(sc, depth+1)
+				}
+			}
+		}
+		scan(g)
+		for _, a := range anonFuncsDeep(g) {
+			scan(a)
+		}
+	}
+	visit(f, 0)
+	helperMemo[f] = out
 	return out
 }
 
@@ -294,6 +376,204 @@ func reach(start point, target func(ssa.Instruction) bool, cut map[edge]bool, st
 	return reachK(start, nil, target, cut, stop)
 }
 
+// ---- transparent callees --------------------------------------------------------------
+//
+// A path query does not stop at the boundary of the function it starts in: a call to a
+// *transparent* callee — a function literal, or an unexported function/method of the same
+// package, with a body — is looked into, so that moving a few statements into a helper (or an
+// immediately invoked closure with a deferred unlock) does not change any verdict:
+//
+//   * if the target is reachable inside the callee (before a stop), it is reachable;
+//   * if no Return of the callee is reachable without crossing a stop (or a cut edge), the
+//     caller's path ends there (the callee passes the stop on all its paths);
+//   * otherwise the path continues after the call.
+//
+// Return instructions of callees never count as targets (rules mean the anchor's returns).
+// Summaries are memoised per top-level query; recursion is cut (treated as opaque).
+
+type reachQuery struct {
+	target func(ssa.Instruction) bool
+	cut    map[edge]bool
+	stop   func(ssa.Instruction) bool
+	memo   map[*ssa.Function]*calleeSummary
+	active map[*ssa.Function]bool
+	depth  int
+}
+
+type calleeSummary struct {
+	hit    ssa.Instruction
+	passes bool
+	// results[i]: what every Return reachable under the query's cuts/stops yields for result i:
+	// factTrue/factFalse for constant booleans, factNil for the nil constant, factNonNil for values
+	// that are visibly not nil (errors.New / fmt.Errorf results, package-level Err… variables,
+	// address-of), factUnknown otherwise or when returns disagree.
+	results []resFact
+}
+
+type resFact int
+
+const (
+	factUnknown resFact = iota
+	factTrue
+	factFalse
+	factNil
+	factNonNil
+)
+
+func classifyResult(v ssa.Value) resFact {
+	v = stripValue(v)
+	if c, ok := v.(*ssa.Const); ok {
+		if b, ok := constBool(c); ok {
+			if b {
+				return factTrue
+			}
+			return factFalse
+		}
+		if c.Value == nil {
+			switch c.Type().Underlying().(type) {
+			case *types.Interface, *types.Pointer, *types.Slice, *types.Map, *types.Signature, *types.Chan:
+				return factNil
+			}
+		}
+		return factUnknown
+	}
+	switch x := v.(type) {
+	case *ssa.UnOp:
+		if x.Op == token.MUL {
+			if g, ok := x.X.(*ssa.Global); ok && strings.HasPrefix(g.Name(), "Err") {
+				return factNonNil
+			}
+		}
+	case *ssa.Call:
+		switch calleeName(&x.Call) {
+		case "errors.New", "fmt.Errorf":
+			return factNonNil
+		}
+	case *ssa.Alloc, *ssa.MakeMap, *ssa.MakeSlice, *ssa.MakeClosure, *ssa.Function:
+		return factNonNil
+	case *ssa.MakeInterface:
+		return factNonNil
+	}
+	return factUnknown
+}
+
+var curReachQuery *reachQuery
+
+// noDescend switches the callee descent off (used by rules that reason about one body only).
+var noDescend = false
+
+func transparentCallee(caller *ssa.Function, in ssa.Instruction) *ssa.Function {
+	c, ok := in.(*ssa.Call)
+	if !ok {
+		return nil
+	}
+	var g *ssa.Function
+	if sc := c.Call.StaticCallee(); sc != nil {
+		g = sc
+	} else if mc, ok := c.Call.Value.(*ssa.MakeClosure); ok {
+		g, _ = mc.Fn.(*ssa.Function)
+	}
+	if g == nil || len(g.Blocks) == 0 {
+		return nil
+	}
+	if !isTransparent(g, pkgOfFn(caller)) {
+		return nil
+	}
+	return g
+}
+
+func pkgOfFn(f *ssa.Function) *ssa.Package {
+	for f != nil {
+		if f.Pkg != nil {
+			return f.Pkg
+		}
+		if f.Parent() != nil {
+			f = f.Parent()
+			continue
+		}
+		if o := f.Origin(); o != nil && o != f {
+			f = o
+			continue
+		}
+		return nil
+	}
+	return nil
+}
+
+func isTransparent(g *ssa.Function, pkg *ssa.Package) bool {
+	if pkg == nil || pkgOfFn(g) != pkg {
+		return false
+	}
+	if g.Parent() != nil {
+		return true // function literal
+	}
+	n := g.Name()
+	if n == "" || n == "init" {
+		return false
+	}
+	r := rune(n[0])
+	return r == '_' || (r >= 'a' && r <= 'z')
+}
+
+func summarizeCallee(g *ssa.Function) *calleeSummary {
+	q := curReachQuery
+	if s, ok := q.memo[g]; ok {
+		return s
+	}
+	if q.active[g] || q.depth >= 4 {
+		return &calleeSummary{passes: true}
+	}
+	q.active[g] = true
+	q.depth++
+	sum := &calleeSummary{}
+	inner := func(in ssa.Instruction) bool {
+		if _, isRet := in.(*ssa.Return); isRet {
+			return false
+		}
+		return q.target(in)
+	}
+	_, sum.hit = reachFrame(entryOf(g), nil, inner, q.cut, q.stop, true)
+	ownReturn := func(in ssa.Instruction) bool {
+		_, isRet := in.(*ssa.Return)
+		return isRet && in.Parent() == g
+	}
+	_, ret := reachFrame(entryOf(g), nil, ownReturn, q.cut, q.stop, false)
+	sum.passes = ret != nil
+	if sum.passes {
+		// every Return reachable under the cuts: explore exhaustively with a recording predicate
+		var rets []*ssa.Return
+		record := func(in ssa.Instruction) bool {
+			if r, ok := in.(*ssa.Return); ok && in.Parent() == g {
+				rets = append(rets, r)
+			}
+			return false
+		}
+		reachFrame(entryOf(g), nil, record, q.cut, q.stop, false)
+		nres := g.Signature.Results().Len()
+		sum.results = make([]resFact, nres)
+		for i := 0; i < nres; i++ {
+			fact, first := factUnknown, true
+			for _, r := range rets {
+				if i >= len(r.Results) {
+					fact = factUnknown
+					break
+				}
+				f := classifyResult(retOperandSSA(r, i))
+				if first {
+					fact, first = f, false
+				} else if f != fact {
+					fact = factUnknown
+				}
+			}
+			sum.results[i] = fact
+		}
+	}
+	q.depth--
+	delete(q.active, g)
+	q.memo[g] = sum
+	return sum
+}
+
 // reachEdge starts on a CFG edge: constants flowing into the target block's phis along that
 // edge are known from the start.
 func reachEdge(e edge, target func(ssa.Instruction) bool, cut map[edge]bool, stop func(ssa.Instruction) bool) ([]*ssa.BasicBlock, ssa.Instruction) {
@@ -317,6 +597,24 @@ func reachEdge(e edge, target func(ssa.Instruction) bool, cut map[edge]bool, sto
 }
 
 func reachK(start point, initKnown map[*ssa.Phi]*ssa.Const, target func(ssa.Instruction) bool, cut map[edge]bool, stop func(ssa.Instruction) bool) ([]*ssa.BasicBlock, ssa.Instruction) {
+	if curReachQuery != nil || noDescend {
+		// a nested top-level query (a predicate that itself calls reach): evaluate it on its own
+		saved := curReachQuery
+		curReachQuery = nil
+		if !noDescend {
+			curReachQuery = &reachQuery{target: target, cut: cut, stop: stop, memo: map[*ssa.Function]*calleeSummary{}, active: map[*ssa.Function]bool{}}
+		}
+		defer func() { curReachQuery = saved }()
+		return reachFrame(start, initKnown, target, cut, stop, true)
+	}
+	curReachQuery = &reachQuery{target: target, cut: cut, stop: stop, memo: map[*ssa.Function]*calleeSummary{}, active: map[*ssa.Function]bool{}}
+	defer func() { curReachQuery = nil }()
+	return reachFrame(start, initKnown, target, cut, stop, true)
+}
+
+// reachFrame explores one function body. wantHit: hits inside transparent callees count as hits
+// of this frame (false for the "does the callee return?" query, which only needs `passes`).
+func reachFrame(start point, initKnown map[*ssa.Phi]*ssa.Const, target func(ssa.Instruction) bool, cut map[edge]bool, stop func(ssa.Instruction) bool, wantHit bool) ([]*ssa.BasicBlock, ssa.Instruction) {
 	fn := start.Block.Parent()
 	// values tested more than once
 	tested := map[ssa.Value]int{}
@@ -369,7 +667,10 @@ func reachK(start point, initKnown map[*ssa.Phi]*ssa.Const, target func(ssa.Inst
 			}
 		}
 	}
+	// facts learnt about call results while scanning a block (bool truth / non-nil-ness)
+	var learnt map[ssa.Value]bool
 	scan := func(b *ssa.BasicBlock, from int) (ssa.Instruction, bool) {
+		learnt = nil
 		for i := from; i < len(b.Instrs); i++ {
 			in := b.Instrs[i]
 			if target(in) {
@@ -377,6 +678,40 @@ func reachK(start point, initKnown map[*ssa.Phi]*ssa.Const, target func(ssa.Inst
 			}
 			if stop != nil && stop(in) {
 				return nil, true
+			}
+			if curReachQuery != nil {
+				if g := transparentCallee(fn, in); g != nil {
+					sum := summarizeCallee(g)
+					if wantHit && sum.hit != nil {
+						return sum.hit, false
+					}
+					if !sum.passes {
+						return nil, true
+					}
+					call := in.(*ssa.Call)
+					for ri, f := range sum.results {
+						if f == factUnknown {
+							continue
+						}
+						var v ssa.Value
+						if len(sum.results) == 1 {
+							v = call
+						} else if refs := call.Referrers(); refs != nil {
+							for _, r := range *refs {
+								if ex, ok := r.(*ssa.Extract); ok && ex.Index == ri {
+									v = ex
+								}
+							}
+						}
+						if v == nil {
+							continue
+						}
+						if learnt == nil {
+							learnt = map[ssa.Value]bool{}
+						}
+						learnt[v] = f == factTrue || f == factNonNil
+					}
+				}
 			}
 		}
 		return nil, false
@@ -410,12 +745,44 @@ func reachK(start point, initKnown map[*ssa.Phi]*ssa.Const, target func(ssa.Inst
 		} else if stopped {
 			continue
 		}
+		if len(learnt) > 0 {
+			as := map[ssa.Value]bool{}
+			for k, v := range n.assume {
+				as[k] = v
+			}
+			for k, v := range learnt {
+				as[k] = v
+			}
+			n.assume = as
+		}
 		var ci condInfo
 		hasIf := false
+		factForced := -1
 		if len(n.st.b.Instrs) > 0 {
 			if i, ok := n.st.b.Instrs[len(n.st.b.Instrs)-1].(*ssa.If); ok {
 				ci = decompose(i.Cond)
 				hasIf = ci.Op == token.ILLEGAL && tested[ci.Root] > 1
+				// a fact about a call result decides `v`, `!v`, `v == nil`, `v != nil`, `v == true` …
+				if known, ok := n.assume[stripValue(ci.Root)]; ok && !hasIf {
+					rel, decided := false, false
+					switch {
+					case ci.Op == token.ILLEGAL:
+						rel, decided = known, true
+					case ci.Const != nil && constIsNil(ci.Const) && (ci.Op == token.EQL || ci.Op == token.NEQ):
+						rel, decided = (ci.Op == token.NEQ) == known, true // known = non-nil
+					case ci.Const != nil && (ci.Op == token.EQL || ci.Op == token.NEQ):
+						if b, isB := constBool(ci.Const); isB {
+							rel, decided = (known == b) == (ci.Op == token.EQL), true
+						}
+					}
+					if decided {
+						if rel != ci.Neg {
+							factForced = 0
+						} else {
+							factForced = 1
+						}
+					}
+				}
 			}
 		}
 		// constant knowledge about a phi decides a comparison of that phi with a constant
@@ -442,6 +809,9 @@ func reachK(start point, initKnown map[*ssa.Phi]*ssa.Const, target func(ssa.Inst
 			}
 			if forced >= 0 && slot != forced {
 				continue // infeasible: the phi holds a known constant on this path
+			}
+			if factForced >= 0 && slot != factForced {
+				continue // infeasible: the callee's reachable returns fix this result
 			}
 			as := n.assume
 			if hasIf {
@@ -650,6 +1020,14 @@ type branch struct {
 
 // branchesIn lists all conditional branches of f with decomposed conditions.
 func branchesIn(f *ssa.Function) []branch {
+	out := branchesInOne(f)
+	for _, h := range helpersOf(f) {
+		out = append(out, branchesInOne(h)...)
+	}
+	return out
+}
+
+func branchesInOne(f *ssa.Function) []branch {
 	var out []branch
 	for _, b := range f.Blocks {
 		if len(b.Instrs) == 0 {
